@@ -164,6 +164,8 @@ func runC15(w *World) {
 		os.WriteFile(filepath.Join(n.dir, "config"), []byte(mustJSON(n.config)), 0600)
 	}
 	var target *Node
+	pwAtRuntime := false
+	roAtRuntime := false
 	clientAddr := simAddr("127.0.0.1:50001")
 	switch mode {
 	case 0: // follower whose leader never answers: it has never caught up
@@ -191,13 +193,21 @@ func runC15(w *World) {
 		}
 	case 2:
 		target = mkNode("n1", "10.0.0.1", true)
-		target.config["read_only"] = true
+		roAtRuntime = (w.seed/7)%2 == 1
+		if !roAtRuntime {
+			target.config["read_only"] = true
+		}
 		target.opts.UseHTTP = true
 		writeCfg(target)
 		target.start()
 	case 3, 4:
 		target = mkNode("n1", "10.0.0.1", true)
-		target.config["requirepass"] = pass
+		// half of the unauthenticated runs set the password at run time, with the probing
+		// connection already open and already used
+		pwAtRuntime = mode == 3 && (w.seed/7)%2 == 1
+		if !pwAtRuntime {
+			target.config["requirepass"] = pass
+		}
 		target.opts.UseHTTP = true
 		writeCfg(target)
 		target.start()
@@ -253,6 +263,39 @@ func runC15(w *World) {
 			return (strings.Contains(v.S, `"ok":false`) || strings.Contains(v.S, "\n-")) && strings.Contains(v.S, substr)
 		}
 		return v.T == '-' && strings.Contains(v.S, substr)
+	}
+	if roAtRuntime {
+		// switched to read-only by command, with the probing connection already in use
+		if v, ok, _ := do(Cmd{Args: []string{"SET", "fleet", "warmup", "POINT", "1", "1"}}); !ok || v.String() != "+OK" {
+			w.harnessErr("set-up SET failed: %s", v.String())
+			return
+		}
+		admin := newObserver(w, target)
+		admin.a.from = "127.0.0.1:50009"
+		if v, ok := admin.do("READONLY", "yes"); !ok || v.String() != "+OK" {
+			w.harnessErr("READONLY yes failed: %s", v.String())
+			return
+		}
+		w.stat("probe.readonly_set_at_runtime", 1)
+	}
+	if pwAtRuntime {
+		// the probing connection works normally while no password is set ...
+		if v, ok, _ := do(Cmd{Args: []string{"GET", "fleet", "truck1"}}); !ok || v.isErr() {
+			w.harnessErr("set-up GET failed: %s", v.String())
+			return
+		}
+		if v, ok, _ := do(Cmd{Args: []string{"SET", "fleet", "warmup", "POINT", "1", "1"}}); !ok || v.String() != "+OK" {
+			w.harnessErr("set-up SET failed: %s", v.String())
+			return
+		}
+		// ... then an administrator sets one on another connection
+		admin := newObserver(w, target)
+		admin.a.from = "127.0.0.1:50009"
+		if v, ok := admin.do("CONFIG", "SET", "requirepass", pass); !ok || v.String() != "+OK" {
+			w.harnessErr("CONFIG SET requirepass failed: %s", v.String())
+			return
+		}
+		w.stat("probe.password_set_at_runtime", 1)
 	}
 	cmds := c15Commands(sha, shaRO)
 	// make the script hashes known where that is possible without being rejected
